@@ -15,6 +15,10 @@ def config_cubes(tier):
     return [{"perm": p, "warm": w} for p in range(6) for w in ([0, 0, 0, 0], [1, 0, 0, 1], [0, 1, 1, 0], [1, 1, 1, 1])]
 
 
+def digest_cubes(tier):
+    return n_cubes(tier) + [{"n": 3, "query_first": True}]  # prefix queries on the still-empty tree come first
+
+
 def one(tier):
     return [{}]
 
@@ -28,7 +32,7 @@ SPEC = Spec(
                   "thorough": "4 entries (24 permutations)"},
           smoke=[{"args": dict(perm=3, v0="a", v1="b", v2="a", v3="", s0=1, s1=2, x0=True, x1=True, m0="q"), "cube": {"n": 3}}],
           encodes="Tree.add, Tree.as_list (sorting, with_meta=False), HashInfo.to_dict"),
-        H("digest", "vf.harness.c03_tree", "h_digest", n_cubes, timeout={"quick": 300, "thorough": 1200},
+        H("digest", "vf.harness.c03_tree", "h_digest", digest_cubes, timeout={"quick": 300, "thorough": 1200},
           bounds={"quick": "3 entries, hash values from a pool of 3 (duplicates), symbolic insertion permutation", "thorough": "4 entries"},
           smoke=[{"args": dict(perm=5, c0=0, c1=1, c2=2, c3=0, x=True), "cube": {"n": 3}}],
           encodes="Tree.digest/as_bytes/as_list, hash.hash_file/_hash_file/file_md5/fobj_md5 over the fsspec memory filesystem"),
